@@ -511,6 +511,12 @@ def obligations(tier):
             obs.append(system_ob(kind, 2, 2, {}, allu(2), ()))
     obs.append(one_one_equals_plain("ODE"))
     obs.append(one_one_equals_plain("nonstatio"))
+    # systems of separable networks: the per-equation term is the weighted grid mean (C11 contract of the forward-mode
+    # branch of dynamic_loss_apply, which system losses call per equation; reported under C13)
+    from contracts import c11
+    for o in (c11.dynapply_ob(1, 2), c11.dynapply_axes_ob(2, 2, 2)):
+        o.name = o.name.replace("C11/", "C13/per_equation_term/")
+        obs.append(o)
     return obs
 
 
